@@ -83,6 +83,20 @@ class Gen:
         self.emit(self.rng.choice(["get", "getkv", "contains"]) + f" {k}")
     def op_misc(self):
         r = self.rng
+        if getattr(self, "many", False) and r.random() < 0.5:
+            n = r.randrange(0, 5)
+            base = self.present() if self.contents else self.anykey()
+            ks = []
+            for _ in range(n):
+                x = r.random()
+                ks.append(base if x < 0.2 else (self.present() if x < 0.7 and self.contents else self.anykey()))
+            add = r.randrange(4)
+            self.emit(f"getmanymut {add} " + " ".join(map(str, ks)))
+            pres = [k for k in ks if k in self.contents]
+            if len(set(pres)) == len(pres):
+                for k in pres:
+                    self.contents[k] = (self.contents[k][0], (self.contents[k][1] + add) & M64)
+            return
         c = r.choice(["getmut", "tryinsert", "entry_or_insert", "entry_insert", "entry_remove", "entry_and_modify",
                       "entry_drop", "retain", "extend", "drain", "extractif", "iter", "iterfold", "reserve",
                       "tryreserve", "shrinkto", "shrinktofit", "clear", "len", "capacity", "allocsize", "withcap",
@@ -142,7 +156,7 @@ class Gen:
 
 ARMS = ["hashpanic_nth", "hashpanic_nth", "hashpanic_key", "eqpanic_nth", "droppanic_nth", "clonepanic_nth", "predpanic_nth", "refuse_nth"]
 
-def make_script(rng, name, kind=None, plan=None, nkeys=None, length=None, clone_ops=False, faults=0.0, calldep=None, arms=None):
+def make_script(rng, name, kind=None, plan=None, nkeys=None, length=None, clone_ops=False, faults=0.0, calldep=None, arms=None, many=False):
     """faults: probability that an operation is preceded by an `arm` line (the k-th callback of a
     class panics / the allocator refuses); calldep: "hash" / "eq" / "both" = inconsistent Hash / Eq."""
     kind = kind or rng.choice(["map-drop", "map-drop", "map-plain"])
@@ -151,6 +165,7 @@ def make_script(rng, name, kind=None, plan=None, nkeys=None, length=None, clone_
     length = length or rng.choice([40, 80, 160])
     g = Gen(rng, nkeys, plan, kind)
     g.resync = False
+    g.many = many
     g.header()
     if calldep in ("hash", "both"):
         g.emit("hashrule calldep")
@@ -222,3 +237,34 @@ def main():
 
 if __name__ == "__main__":
     main()
+
+
+def make_churn_script(rng, name, table=False, length=None):
+    """C13: insert/remove interleavings of bounded live size (no reserve), all hash plans."""
+    kind = rng.choice(["table-plain", "table-drop"]) if table else rng.choice(["map-drop", "map-plain"])
+    plan = rng.choice(PLANS)
+    live = rng.choice([1, 2, 3, 5, 7, 12, 14, 15, 27, 28, 29, 50])
+    nkeys = live * rng.choice([2, 4, 9]) + 3
+    length = length or rng.choice([300, 600])
+    salt = rng.getrandbits(32)
+    lines = [f"kind {kind}"] + [f"hash {k} {plan_hash(plan, k, rng, salt)}" for k in range(nkeys + 2)]
+    present = []
+    stamp = 0
+    style = rng.choice(["fifo", "random", "lifo", "sawtooth"])
+    for step in range(length):
+        stamp += 1
+        want_insert = len(present) < live and (not present or rng.random() < (0.9 if style == "sawtooth" and (step // live) % 2 == 0 else 0.55))
+        if want_insert:
+            k = rng.choice([x for x in range(nkeys) if x not in present])
+            present.append(k)
+            if table:
+                lines.append(f"tinsertunique {k} {stamp} {stamp % 97}")
+            else:
+                lines.append(rng.choice([f"insert {k} {stamp} {stamp % 97}", f"entry_or_insert {k} {stamp} {stamp % 97}"]))
+        else:
+            i = 0 if style == "fifo" else len(present) - 1 if style == "lifo" else rng.randrange(len(present))
+            k = present.pop(i)
+            lines.append(f"tfindentryremove {k} id {k}" if table else rng.choice([f"remove {k}", f"removeentry {k}"]))
+        if step % 50 == 49:
+            lines.append(("tfind {0} id {0}" if table else "get {0}").format(nkeys + 1))      # absent key in a tombstone-laden table
+    return f"=== {name} plan={plan} live={live}\n" + "\n".join(lines) + "\n"
